@@ -49,7 +49,7 @@ func testdataDir() string {
 
 var c15Keys = func() []c15Key {
 	var out []c15Key
-	for _, n := range []string{"ecdsa1", "ecdsa2", "rsa1"} {
+	for _, n := range []string{"ecdsa1", "ecdsa2", "rsa1", "ecdsa3_issued_by_rsa", "rsa2_issued_by_ecdsa", "ecdsa4_selfsigned_sha384"} {
 		cp, err := os.ReadFile(filepath.Join(testdataDir(), "c15", n+".cert.pem"))
 		if err != nil {
 			// resolved lazily in the test (so that unrelated tests do not depend on the files)
